@@ -10,6 +10,7 @@ TRUSTED = [
     "for range / local / ical zones the pre-image set of a wall time is enumerated from the zone's own UTC->local map (candidates w - std, w - dst)",
 ]
 ASSUMPTIONS = [
+    "offsets and derived dstoffsets are strictly within ±24 h (CPython raises ValueError from utcoffset()/dst() otherwise; not modelled)",
     "tzfile: WF tables (Spec.wf); wall times at or after the last transition's wall reading are required only when the zone's ttinfo_std is the last transition's type",
     "resolve_imaginary probes the offsets 24 h before and after: required only when no other offset change lies within 24 h + gap of the gap (the run counts the others)",
     "range zones with negative saving (D-C05r) or a transition next to 1 January (D-C04y) are known finding classes",
